@@ -258,7 +258,7 @@ fn rules_json(rules: &[RuleN], u: i64) -> serde_json::Value {
 fn check_points(
     t: &mut Tally, stage: &str, rules: &[RuleN], pts: &[Vec<i64>], u: i64, nglyphs: usize,
     font: &dyn Fn(&[i64]) -> Option<Vec<SubMap>>, collision_at: &dyn Fn(&[i64]) -> Option<&'static str>, input: &serde_json::Value,
-    order_is_final: bool,
+    order_is_final: bool, show_axes: &[usize],
 ) -> usize {
     let mut bad = 0;
     let has_empty_region = rules.iter().any(|r| r.boxes.is_empty());
@@ -300,7 +300,7 @@ fn check_points(
         } else {
             "wrong-substitutions-at-location"
         };
-        let loc: Vec<(String, f64)> = p.iter().enumerate().map(|(a, v)| (TAGS[a].to_string(), *v as f64 / u as f64)).collect();
+        let loc: Vec<(String, f64)> = show_axes.iter().map(|a| (TAGS[*a].to_string(), p[*a] as f64 / u as f64)).collect();
         t.viol(
             key,
             format!(
@@ -459,7 +459,7 @@ fn stage_a_case(rng: &mut Rng, t: &mut Tally, id: &mut usize, kind: &str, cfg: &
     let expect = match &res {
         Ok(items) => {
             let font = |p: &[i64]| items.iter().find(|(b, _)| in_box(p, b)).map(|(_, ms)| ms.clone());
-            check_points(t, "overlay", &rules, &pts, u, nglyphs, &font, &|_| None, &input, false);
+            check_points(t, "overlay", &rules, &pts, u, nglyphs, &font, &|_| None, &input, false, &(0..cfg.naxes).collect::<Vec<_>>());
             format!("(Some {})", coq_items(items))
         }
         Err(msg) => {
@@ -480,6 +480,17 @@ fn stage_a_case(rng: &mut Rng, t: &mut Tally, id: &mut usize, kind: &str, cfg: &
 fn crafted_65() -> Vec<RuleN> {
     let mut rules: Vec<RuleN> = (0..64).map(|k| RuleN { boxes: vec![vec![(2, Some(-1000 + 20 * k), Some(-1000 + 20 * k + 12))]], subs: vec![(2 * k as usize, 2 * k as usize + 1)] }).collect();
     rules.push(RuleN { boxes: vec![vec![(2, Some(-980), Some(-974))], vec![(2, Some(-974), Some(-968))]], subs: vec![(128, 129)] });
+    rules
+}
+
+/// 65 rules that do not panic: rule 0 covers a wide interval, rule 64 an interval inside it, the
+/// other 63 are disjoint from both.  The box of {0, 64} has a two-word rank.
+fn crafted_65b() -> Vec<RuleN> {
+    let mut rules: Vec<RuleN> = vec![RuleN { boxes: vec![vec![(2, Some(-1000), Some(-400))]], subs: vec![(0, 1)] }];
+    for k in 1..64i64 {
+        rules.push(RuleN { boxes: vec![vec![(2, Some(-360 + 20 * k), Some(-360 + 20 * k + 12))]], subs: vec![(2 * k as usize, 2 * k as usize + 1)] });
+    }
+    rules.push(RuleN { boxes: vec![vec![(2, Some(-800), Some(-600))]], subs: vec![(128, 129)] });
     rules
 }
 
@@ -823,7 +834,7 @@ fn stage_e_case(rng: &mut Rng, t: &mut Tally, id: &mut usize, idx: usize, kind: 
         idx.dedup();
         Some(idx.iter().filter_map(|i| fv.lookups.get(*i as usize).cloned()).collect())
     };
-    check_points(t, "font", &rules, &pts, UQ, c.nglyphs, &font, &collision_at, &input, true);
+    check_points(t, "font", &rules, &pts, UQ, c.nglyphs, &font, &collision_at, &input, true, &c.axes.iter().map(|a| a.tag).collect::<Vec<_>>());
     let expect = format!(
         "(Some ({}, {}))",
         coq_list(&fv.lookups, coq_submap),
@@ -847,40 +858,6 @@ fn main() {
     let mut rng = Rng::new(seed);
     let mut t = Tally { emitted: BTreeMap::new(), points: 0, kinds: BTreeMap::new(), mism: BTreeMap::new(), order_dependent_skipped: 0 };
     let mut id = 0usize;
-
-    // ---- stage A: overlay_feature_variations directly ----
-    for k in 0..n {
-        let naxes = rng.range(1, 3) as usize;
-        let (u, step) = *rng.pick(&[(16i64, 1i64), (64, 1), (64, 4), (16384, 512)]);
-        let cfg = GenCfg { naxes, u, step };
-        let nr = match rng.below(10) {
-            0 => 1,
-            1..=6 => rng.range(2, 5) as usize,
-            7..=8 => rng.range(6, 8) as usize,
-            _ => rng.range(9, 12) as usize,
-        };
-        let messy = k % 4 == 3;
-        let rules = gen_rules(&mut rng, &cfg, nr, messy, true);
-        let kind = if messy { "overlay-messy-subs" } else { "overlay" };
-        stage_a_case(&mut rng, &mut t, &mut id, kind, &cfg, rules, 1500);
-    }
-    // 63 / 64 rules: the last sizes one machine word holds
-    for nr in [63usize, 64] {
-        let cfg = GenCfg { naxes: 1, u: 1024, step: 1 };
-        let rules = gen_rules(&mut rng, &cfg, nr, false, false);
-        stage_a_case(&mut rng, &mut t, &mut id, "overlay-63-64-rules", &cfg, rules, 1500);
-    }
-    // >= 65 rules
-    {
-        let cfg = GenCfg { naxes: 3, u: 1024, step: 1 };
-        stage_a_case(&mut rng, &mut t, &mut id, "overlay-ge-65-rules", &cfg, crafted_65(), 1500);
-    }
-    for _ in 0..nbig {
-        let cfg = GenCfg { naxes: 1, u: 1024, step: 1 };
-        let nr = rng.range(65, 70) as usize;
-        let rules = gen_rules(&mut rng, &cfg, nr, false, false);
-        stage_a_case(&mut rng, &mut t, &mut id, "overlay-ge-65-rules", &cfg, rules, 1500);
-    }
 
     // ---- stage E: designspace <rules> through the compiler ----
     // the three situations of DESIGN.md 6.4 first, then generated designs
@@ -949,7 +926,48 @@ fn main() {
             .collect();
         let c = CaseE { axes: vec![AxisE { tag: 2, dflt: 0 }], rules, last: false, nglyphs: 130 };
         stage_e_case(&mut rng, &mut t, &mut id, 9100, "font-ge-65-rules", &c, 800);
+        let rules: Vec<RuleD> = crafted_65b()
+            .into_iter()
+            .map(|r| RuleD { condsets: r.boxes.iter().map(|b| b.iter().map(|(_, mn, mx)| (0usize, mn.map(|v| (v + 1000) / 2), mx.map(|v| (v + 1000) / 2))).collect()).collect(), subs: r.subs })
+            .collect();
+        let c = CaseE { axes: vec![AxisE { tag: 2, dflt: 0 }], rules, last: false, nglyphs: 130 };
+        stage_e_case(&mut rng, &mut t, &mut id, 9101, "font-ge-65-rules", &c, 800);
     }
+    // ---- stage A: overlay_feature_variations directly ----
+    for k in 0..n {
+        let naxes = rng.range(1, 3) as usize;
+        let (u, step) = *rng.pick(&[(16i64, 1i64), (64, 1), (64, 4), (16384, 512)]);
+        let cfg = GenCfg { naxes, u, step };
+        let nr = match rng.below(10) {
+            0 => 1,
+            1..=6 => rng.range(2, 5) as usize,
+            7..=8 => rng.range(6, 8) as usize,
+            _ => rng.range(9, 12) as usize,
+        };
+        let messy = k % 4 == 3;
+        let rules = gen_rules(&mut rng, &cfg, nr, messy, true);
+        let kind = if messy { "overlay-messy-subs" } else { "overlay" };
+        stage_a_case(&mut rng, &mut t, &mut id, kind, &cfg, rules, 1500);
+    }
+    // 63 / 64 rules: the last sizes one machine word holds
+    for nr in [63usize, 64] {
+        let cfg = GenCfg { naxes: 1, u: 1024, step: 1 };
+        let rules = gen_rules(&mut rng, &cfg, nr, false, false);
+        stage_a_case(&mut rng, &mut t, &mut id, "overlay-63-64-rules", &cfg, rules, 1500);
+    }
+    // >= 65 rules
+    {
+        let cfg = GenCfg { naxes: 3, u: 1024, step: 1 };
+        stage_a_case(&mut rng, &mut t, &mut id, "overlay-ge-65-rules", &cfg, crafted_65(), 1500);
+        stage_a_case(&mut rng, &mut t, &mut id, "overlay-ge-65-rules", &cfg, crafted_65b(), 1500);
+    }
+    for _ in 0..nbig {
+        let cfg = GenCfg { naxes: 1, u: 1024, step: 1 };
+        let nr = rng.range(65, 70) as usize;
+        let rules = gen_rules(&mut rng, &cfg, nr, false, false);
+        stage_a_case(&mut rng, &mut t, &mut id, "overlay-ge-65-rules", &cfg, rules, 1500);
+    }
+
     emit_stat(json!({"locations_checked": t.points, "extra_evaluations": t.points, "case_kinds": t.kinds, "predicate_failures_by_key": t.mism,
         "overlay_stage_locations_with_order_dependent_rules_left_to_font_stage": t.order_dependent_skipped}));
 }
